@@ -32,7 +32,10 @@ InitArena(c, d) ==
   IF d.ok
   THEN [ok |-> TRUE, flavor |-> d.flavor, backend |-> d.backend, doff |-> d.data_offset,
         live |-> NoLive, leaked |-> {}, obs |-> d.obs, mem |-> d.mem,
-        truncated |-> FALSE, rewound |-> FALSE, first |-> TRUE, dead |-> FALSE, na |-> FALSE]
+        truncated |-> FALSE, rewound |-> FALSE, first |-> TRUE, dead |-> FALSE, na |-> FALSE,
+        \* file sessions: rw = shared writable mapping (writes reach the file), cow = private copy, ro = read-only;
+        \* persist = what the file holds (state at the last step of the last rw session)
+        mode |-> "rw", kind0 |-> d.kind, persist |-> [obs |-> d.obs, mem |-> d.mem, held |-> {}]]
   ELSE DeadArena
 
 ResetCheck(a, c, d) ==
@@ -79,11 +82,19 @@ HandleOf(op, r, delta) ==
 DropFrom(live, h) == [i \in DOMAIN live \ {h} |-> live[i]]
 AsLeak(hr) == [po |-> hr.po, ps |-> hr.ps, pat |-> hr.pat]
 
-NextArena(op, x, s) ==
+HeldOf(s) == s.leaked \cup {AsLeak(s.live[h]) : h \in DOMAIN s.live}
+ModeOf(variant) == IF variant = "map_mut" THEN "rw" ELSE IF variant = "map_copy" THEN "cow" ELSE "ro"
+
+NextArena0(op, x, s) ==
   IF ~s.ok \/ s.dead THEN s
-  ELSE IF x.res.k \in {"panic", "dead", "noarena"} THEN [s EXCEPT !.dead = TRUE]
+  ELSE IF x.res.k \in {"panic", "dead", "noarena"} \/ (op.k = "reopen" /\ x.res.k # "ok") THEN [s EXCEPT !.dead = TRUE]
   ELSE
   LET s1 == [s EXCEPT !.obs = x.obs, !.mem = x.mem] IN
+  IF op.k = "reopen" THEN
+     \* the closing session's handles are given up; what counts afterwards is what the FILE held
+     [s1 EXCEPT !.live = NoLive, !.leaked = s.persist.held \cup (IF s.mode = "rw" THEN HeldOf(s) ELSE {}),
+                !.mode = ModeOf(op.variant), !.first = FALSE, !.truncated = FALSE]
+  ELSE
   IF IsAlloc(op) THEN
      IF x.res.k = "ok"
      THEN [s1 EXCEPT !.live = (x.res.h :> HandleOf(op, x.res, x.obs.refs - s.obs.refs)) @@ s.live,
@@ -109,6 +120,45 @@ NextArena(op, x, s) ==
                 !.truncated = (s.truncated \/ x.res.k = "ok")]
   ELSE s1
 
+\* in a shared writable session every step reaches the file
+NextArena(op, x, s) ==
+  LET s2 == NextArena0(op, x, s) IN
+  IF s2.ok /\ ~s2.dead /\ s2.mode = "rw" /\ "obs" \in DOMAIN x
+  THEN [s2 EXCEPT !.persist = [obs |-> x.obs, mem |-> x.mem, held |-> HeldOf(s2)]]
+  ELSE s2
+
+\* ------------------------------------------------------------------ close + reopen (C05) and read-only sessions (C09)
+ReopenPreds(s, op, x) ==
+  LET P == s.persist o == x.obs ro == op.variant \in {"map", "map_copy_ro"} IN
+  IF x.res.k # "ok" THEN << <<"C05", "ReopenSucceeds", FALSE>> >>
+  ELSE <<
+  <<"C05", "ReopenKeepsState", o.alloc = P.obs.alloc /\ o.disc = P.obs.disc /\ o.doff = P.obs.doff /\ o.minseg = P.obs.minseg>>,
+  <<"C05", "ReopenKeepsIdentity", x.descr.kind = s.kind0 /\ x.descr.magic_version = (IF Has(cfg, "magic") THEN cfg.magic ELSE 0)
+                                  /\ x.descr.version = 0 /\ x.descr.is_map_file /\ x.descr.unify
+                                  /\ x.descr.reserved_len = ReservedOf(cfg)>>,
+  <<"C05", "ReopenKeepsBytes", Clip(x.mem, P.obs.alloc) = Clip(P.mem, P.obs.alloc)>>,
+  <<"C05", "FreedStillOnTheList", o.fl = P.obs.fl /\ ~o.fltrunc>>,
+  \* (a read-only mapping cannot grow the file: its capacity is at most the file length)
+  <<"C05", "CapacityCoversAllocated", (ro \/ op.cap = 0 \/ o.cap = op.cap) /\ o.cap >= o.alloc /\ o.rem = o.cap - o.alloc>>,
+  <<"C09", "ReadOnlyFlag", x.descr.read_only = ro>>,
+  \* a private or read-only open leaves every byte that was in the file (a writable private open may append zeros
+  \* when a larger capacity is requested)
+  <<"C09", "NonSharedOpenLeavesFile",
+       (op.variant # "map_mut") => /\ Clip(x.file_after.rle, x.file_before.len) = x.file_before.rle
+                                   /\ (ro => x.file_after.len = x.file_before.len)>>,
+  <<"C05", "WritableOpenKeepsAllocatedPrefix",
+       Clip(x.file_after.rle, P.obs.alloc) = Clip(x.file_before.rle, P.obs.alloc) /\ x.file_after.len >= x.file_before.len>>
+  >>
+
+Mutator(op) == IsAlloc(op) \/ op.k \in {"discard", "clear", "setmin", "incdisc", "truncate"}
+ReadOnlyPreds(s, op, x) ==
+  \* a zero-sized request changes nothing: it may be granted (alloc::<()>()) or refused
+  IF ~Mutator(op) \/ x.res.k \in {"skip"} \/ (IsAlloc(op) /\ ZeroReq(op) /\ x.res.k = "ok" /\ x.res.ps = 0) THEN <<>>
+  ELSE <<
+  <<"C09", "ReadOnlyRejects", x.res.k \in {"err_ro", "err_io", "panic", "na"}>>,
+  <<"C09", "ReadOnlyLeavesStateAndBytes", ("obs" \notin DOMAIN x) \/ (SameObs(x.obs, s.obs) /\ x.mem = s.mem)>>
+  >>
+
 \* ------------------------------------------------------------------ per-op: predicates (ArenaProps)
 Deallocs(x) == SelectSeq(x.api, LAMBDA r : r.k = "dealloc")
 Report(a, P) == \A i \in 1..Len(P) : Viol(P[i][1], P[i][2], a, P[i][3])
@@ -116,10 +166,15 @@ CfgRec == [kind |-> KindOf(cfg), maxalign |-> MaxAlignOf(cfg), reserved |-> Rese
 
 CheckArena(a, op, x, s, s2) ==
   IF ~s.ok \/ s.dead \/ x.res.k \in {"dead", "noarena", "skip"} THEN TRUE
-  ELSE IF x.res.k = "panic" THEN Viol(PanicProp(op), "NoPanic", a, FALSE)
+  ELSE IF x.res.k = "panic" THEN (IF s.mode = "ro" THEN TRUE ELSE Viol(PanicProp(op), "NoPanic", a, FALSE))
   ELSE
   LET c == CfgRec r == x.res o == x.obs IN
-  /\ IF IsAlloc(op) THEN
+  /\ IF op.k = "reopen" THEN Report(a, ReopenPreds(s, op, x))
+     ELSE IF s.mode = "ro" THEN Report(a, ReadOnlyPreds(s, op, x))
+     ELSE TRUE
+  \* a call refused on a read-only session is judged by ReadOnlyPreds only (C20 / C18 / C17 ask for exactly that)
+  /\ IF op.k \in {"reopen", "flush"} \/ (s.mode = "ro" /\ r.k \in {"err_ro", "err_io", "panic"}) THEN TRUE
+     ELSE IF IsAlloc(op) THEN
         IF r.k = "ok"
         THEN Report(a, AllocOkPreds(c, s, op, r, o,
                  [zeroOnReturn |-> (op.k = "ab" /\ r.ps > 0) => RangeIs(x.mem0, r.po, r.po + r.ps, 0)]))
